@@ -114,10 +114,13 @@ def shared_case(draw):
     return _reserved_label(draw, case)
 
 
+RESERVED_RATE = 11
+
+
 def _reserved_label(draw, case):
     """now and then a data column is called what an engine or pandera calls a helper column: the meaning of a schema
     does not depend on the labels of the data"""
-    if case["table"]["columns"] and draw(st.integers(0, 11)) == 0:
+    if case["table"]["columns"] and draw(st.integers(0, RESERVED_RATE)) == 0:
         from . import plx
 
         old = draw(st.sampled_from([t["name"] for t in case["table"]["columns"]]))
